@@ -2,19 +2,19 @@
 import vfw
 
 H = 'c19/h_c19.cpp'
-POS = {0: 'siblings', 1: 'parent and child', 2: 'encapsulated siblings', 3: 'sibling plus child', 4: 'grandparent/grandchild (unreachable)', 5: 'parentless variable', 6: 'cousins (unreachable)'}
+POS = {0: 'siblings', 1: 'parent and child', 2: 'encapsulated siblings', 3: 'sibling plus child', 4: 'grandparent/grandchild (unreachable)', 5: 'parentless variable', 6: 'cousins (unreachable)', 7: 'sibling + child + parentless', 8: 'sibling + child + unreachable grandchild'}
 HOW = {0: 'no units', 1: 'by name', 2: "the model's own object", 3: 'object of another model', 4: 'standard unit', 5: 'stand-alone object with a unit child'}
 
 
 def run(fw):
-    fw.assumptions += ['fixVariableInterfaces: 7 relative positions of the connected components (one query each); the pre-existing interface of each of the 3 variables is symbolic over {unset, none, public, private, public_and_private, invalid string}',
+    fw.assumptions += ['fixVariableInterfaces: 9 relative positions of the connected components (one query each); the pre-existing interface of each of the 3 variables is symbolic over {unset, none, public, private, public_and_private, invalid string}',
                        'oracle for "sufficient interface": the CellML 2.0 rule (public towards siblings and the parent, private towards children) written in the harness, not the validator code (validator.cpp needs libxml2)',
                        'linkUnits: 6 ways of naming units (one query each), units names symbolic over two letters; clean: emptiness of name/id/math/variable/unit child of two components and one units symbolic',
                        'outside: deeper hierarchies, more than 3 connected variables, imported units/components']
     # HOW=1/5 (a stand-alone units object named by a symbolic string) send the symbolic name through the standard-units table:
     # no verdict within 20 min (measured); attempted as best effort in the thorough tier only
     hows = [h for h in HOW if h not in (1, 5) or fw.tier == 'thorough']
-    jobs = [('h_fix_interfaces', ['POS=%d' % p], 'position: ' + POS[p]) for p in POS] + [('h_link_units', ['HOW=%d' % h], 'units given ' + HOW[h]) for h in hows] + [('h_clean', [], '9 emptiness flags')]
+    jobs = [('h_fix_interfaces', ['POS=%d' % p], 'position: ' + POS[p]) for p in POS] + [('h_link_units', ['HOW=%d' % h], 'units given ' + HOW[h]) for h in hows] + [('h_clean', [], '9 emptiness flags, second child empty'), ('h_clean', ['C3NAMED'], '9 emptiness flags, second child named')]
     wit = {('h_fix_interfaces', 'POS=3'), ('h_link_units', 'HOW=4'), ('h_clean', '')}
 
     def one(j):
@@ -24,12 +24,12 @@ def run(fw):
         m = fw.build_model(name, H, [root], defines=defs)
         us = fw.unwindset(m, root, vfw.std_rules(string=20, extra=[(r'6appendEPKc', 130)]))
         lab = '%s[%s]' % (root, what)
-        r = fw.cbmc(m, root, unwind=6, unwindset=us, timeout=1200, label=lab, symbolic='interface attributes / unit names / emptiness flags')
+        fw.differential(m, root, H, seeds=25, defines=defs)   # cheap, and shows real-library failures even if the solver gives up
+        r = fw.cbmc(m, root, unwind=6, unwindset=us, timeout=900, label=lab, symbolic='interface attributes / unit names / emptiness flags')
         if r['status'] != 'SUCCESS':
             fw.log(lab, r['status'], r['wall'], [(f['msg'], f['inputs']) for f in r['failed']][:4])
         fw.handle(r, H, defs, best_effort=(extra in (['HOW=1'], ['HOW=5'])))
         if (root, ''.join(extra)) in wit:
             mw = fw.build_model(name + 'w', H, [root], defines=defs + ['WITNESS'])
             fw.witness(mw, root, unwind=6, unwindset=us, timeout=1200, label='witness:' + lab)
-        fw.differential(m, root, H, seeds=25, defines=defs)
     vfw.pmap(one, jobs, 14)
